@@ -465,6 +465,7 @@ func (w *c19World) runBlocks(lo uint64, hi *uint64, filt string) (string, []c19B
 			}
 		}
 		if err := w.without.StreamBlocks(req, rec); err != nil {
+			c19LastErr = err.Error()
 			return "err"
 		}
 		var sb strings.Builder
@@ -560,7 +561,7 @@ func (w *c19World) judgeTx(out string, items []c19Item, lo uint64, hi *uint64, g
 		return []c19Verdict{{"C19:panic:" + path, "the stream panicked: " + zz.LastPanic}}
 	}
 	if out == "err" {
-		return []c19Verdict{{"C19:stream-error:" + path, "the stream ended with an error on a well-formed archive"}}
+		return []c19Verdict{{"C19:stream-error:" + path, "the stream ended with an error on a well-formed archive: " + c19LastErr}}
 	}
 	exp := w.expectTx(lo, end, f)
 	var real []c19Item
@@ -686,7 +687,7 @@ func (w *c19World) judgeBlocks(out string, items []c19BlockItem, lo uint64, hi *
 		return []c19Verdict{{"C19:blocks:panic", "StreamBlocks panicked: " + zz.LastPanic}}
 	}
 	if out == "err" {
-		return []c19Verdict{{"C19:blocks:stream-error", "StreamBlocks ended with an error on a well-formed archive"}}
+		return []c19Verdict{{"C19:blocks:stream-error", "StreamBlocks ended with an error on a well-formed archive: " + c19LastErr}}
 	}
 	var exp []uint64
 	inc := []int(nil)
@@ -800,7 +801,7 @@ func c19Ranges(w *c19World, rng *zz.RNG, nRandom int) []c19Range {
 	// a block with several transactions
 	for _, ge := range w.epochs {
 		for _, b := range ge.Blocks {
-			if len(b.Txs) >= 4 {
+			if len(b.Txs) >= 4 && b.Slot >= a0 {
 				add("single-busy-block", b.Slot, b.Slot)
 				break
 			}
